@@ -93,3 +93,20 @@ Theorem C11_checker_k1_class : forall s,
   chk_C11 s (api_tree s []) = 0 \/ chk_C11 s (api_tree s []) = 51.
 Proof. exact WfAllChk.chk_C11_tree_k1. Qed.
 Print Assumptions C11_checker_k1_class.
+
+(* with hypotheses on the INPUT only (`tiny`: sizes and numbers of the tree below 2^28) *)
+From RS Require Proofs.BoundsPos Proofs.BoundsAll.
+Theorem C11_map_wf_input_bounds : forall st st' s cols m,
+  RStreamTree.rshape s = true -> treeA s = true -> BoundsPos.tiny s = true ->
+  get_map st s cols = (Some m, st') ->
+  sorted_by pos_lt (decode_mappings (sm_mappings m)) = true /\
+  Forall (WfAllMap.seg_inside (source s)) (decode_mappings (sm_mappings m)) /\
+  tables_clause m = true /\ alphabet_clause m = true.
+Proof. exact BoundsAll.get_map_wf_tiny. Qed.
+Print Assumptions C11_map_wf_input_bounds.
+
+Theorem C11_checker_input_bounds : forall s,
+  RStreamTree.rshape s = true -> treeA s = true -> BoundsPos.tiny s = true -> k1_shape s = false ->
+  chk_C11 s (api_tree s []) = 0.
+Proof. exact BoundsAll.chk_C11_tree_tiny. Qed.
+Print Assumptions C11_checker_input_bounds.
